@@ -5,7 +5,7 @@
    for it.  Batches and scripts are ARBITRARY; run_batch is a structurally recursive total
    function (no fuel), which is the model-level statement of "the batch ends". *)
 From Coq Require Import String.
-From V Require Import C11_Spec C11_Proofs C11_ProcProofs C11_StartProofs C11_PrinterProofs.
+From V Require Import C11_Spec C11_Proofs C11_ProcProofs C11_StartProofs C11_PrinterProofs C11_InProcProofs.
 Open Scope nat_scope.
 
 (* exactly one outcome for every case of the batch, none for anything else *)
@@ -420,4 +420,68 @@ Example ex_limit_window :
   asks_for_body RdServerResponse c11_max_server_response = true /\
   asks_for_body RdServerResponse (c11_max_server_response + 1) = false /\
   server_resp 2097152 true = RBad /\ server_resp 1048576 true = RValid true.
+Proof. vm_compute. repeat split; reflexivity. Qed.
+
+(* ---- an in-process server that gives up; whenDone (fourth wave: seeds C11-24, C04-23) ---- *)
+(* runInProcess's goroutine as a list of actions: the error line is appended to what the stderr reader gets iff
+   it is printed after the function returned and BEFORE the pipes are closed; printed after, it is lost for good *)
+Theorem inprocess_print_order : forall im e pre post,
+  im_err im = Some e ->
+  (In ARunImpl pre -> ~ In AClosePipes pre ->
+     ip_stream (ip_run im (pre ++ [APrintErr])) = ip_stream (ip_run im pre) ++ err_line e) /\
+  (In AClosePipes pre ->
+     ip_stream (ip_run im (pre ++ APrintErr :: post)) = ip_stream (ip_run im pre)).
+Proof. exact inprocess_print_order_proof. Qed.
+Print Assumptions inprocess_print_order.
+
+(* process.go's order: the reader gets the server's own output, then the error line; then the end of the stream;
+   `done` is closed after that *)
+Theorem inprocess_stream : forall own err,
+  inproc_stream (mkImpl own err) = own ++ match err with Some e => err_line e | None => [] end /\
+  ip_open (ip_run (mkImpl own err) code_order) = false /\
+  ip_done (ip_run (mkImpl own err) code_order) = true.
+Proof. exact inprocess_stream_proof. Qed.
+Print Assumptions inprocess_stream.
+
+(* for EVERY batch and fault script over an in-process reference server that wrote whole lines and returned an
+   error: the error line is a line of its own on the stream and is handed to the error printer (unless it is blank
+   or looks like feedback for a case of the batch) *)
+Theorem inprocess_error_is_printed : forall er sv cs bodies e,
+  s_start sv = true -> s_refsrv sv = true ->
+  s_stderr sv = inproc_stream (mkImpl (whole_lines bodies) (Some e)) ->
+  Forall no_nl bodies -> no_nl e ->
+  ~ blank (err_line e) -> ~ attributed (names cs) (err_line e) ->
+  lines_keep (s_stderr sv) = map (fun b => b ++ [10%N]) bodies ++ [err_line e; []] /\
+  In (err_line e) (r_fwd (run_batch er sv cs)).
+Proof. exact inprocess_error_is_printed_proof. Qed.
+Print Assumptions inprocess_error_is_printed.
+
+(* whenDone calls its action whatever the result: the end of a server that exits with status 0 is noticed like any other
+   (with dead_server_either_flavour: the cases after it are setup errors) *)
+Theorem clean_exit_is_noticed : forall clean dead, noticed_dead WdAlways clean dead = dead.
+Proof. exact clean_exit_is_noticed_proof. Qed.
+Print Assumptions clean_exit_is_noticed.
+
+(* the hypotheses are inhabited by the scripted server of the harness; seed C11-24 (error printed by a deferred
+   function that runs after the pipes were closed): the line is lost; seed C04-23 (whenDone only on error): a clean
+   exit after 1 of 3 requests goes unnoticed, the remaining cases PASS instead of being setup errors *)
+Example ex_inprocess_scripted :
+  let sv := mkServer true WOk RBad false None true false (inproc_stream (mkImpl (own_lines 1) (Some scripted_error))) false in
+  own_lines 1 = whole_lines [bs "verif: own line 0"] /\
+  r_fwd (run_batch false sv (plain_cases 2)) = [bs "verif: own line 0" ++ [10%N]; err_line scripted_error] /\
+  no_nl scripted_error /\ ~ blank (err_line scripted_error).
+Proof.
+  cbv zeta. split; [vm_compute; reflexivity|]. split; [vm_compute; reflexivity|]. split.
+  - vm_compute. intuition discriminate.
+  - unfold blank. vm_compute. discriminate.
+Qed.
+Example seeded_print_order_refuted :
+  ip_stream (ip_run (mkImpl (own_lines 1) (Some scripted_error)) seeded_order) = own_lines 1 /\
+  ip_stream (ip_run (mkImpl (own_lines 1) (Some scripted_error)) code_order) = own_lines 1 ++ err_line scripted_error.
+Proof. vm_compute. split; reflexivity. Qed.
+Example whendone_on_error_only_refuted :
+  let sv v := mkServer true WOk (RValid false) false (noticed_dead v true (Some 1%nat)) false false [] true in
+  one_count KPass (plain_cases 3) (run_batch false (sv WdOnError) (plain_cases 3)) = 3%nat /\
+  one_count KPass (plain_cases 3) (run_batch false (sv WdAlways) (plain_cases 3)) = 1%nat /\
+  one_count KSetup (plain_cases 3) (run_batch false (sv WdAlways) (plain_cases 3)) = 2%nat.
 Proof. vm_compute. repeat split; reflexivity. Qed.
